@@ -460,6 +460,9 @@ func init() {
 	intrinsics["internal/stringslite.IndexByte"] = intrinsics["internal/bytealg.IndexByteString"]
 	intrinsics["bytes.IndexByte"] = intrinsics["internal/bytealg.IndexByte"]
 
+	// ---- error-message formatting that would fork on every input byte ----
+	intrinsics["time.quote"] = func(fr *frame, a []value) value { return "\"<input>\"" }
+
 	// ---- easyjson unsafe casts ----
 	intrinsics["github.com/mailru/easyjson/jlexer.bytesToStr"] = func(fr *frame, a []value) value {
 		return bytesToString(a[0].([]value))
